@@ -608,13 +608,13 @@ impl Relation {
             .with_iter(self.schema().iter().map(|f| {
                 if name_sigmas.contains_key(&f.name()) {
                     let x = Expr::coalesce(Expr::col(f.name()), Expr::val(0.));
+                    // When the range of the column is not known as a float range, the noisy value is not clipped
                     let float_data_type: data_type::Float = x
                         .super_image(&f.data_type())
-                        .unwrap()
-                        .into_data_type(&DataType::float())
-                        .unwrap()
-                        .try_into()
-                        .unwrap();
+                        .ok()
+                        .and_then(|data_type| data_type.into_data_type(&DataType::float()).ok())
+                        .and_then(|data_type| data_type.try_into().ok())
+                        .unwrap_or_default();
                     (
                         f.name(),
                         Expr::least(
